@@ -328,8 +328,8 @@ Fixpoint contiguous_dims (shape : list N) : list dim :=
   end.
 
 (* Layout::reshaped_for_view (+ reshaped_for_copy) *)
-Definition reshaped_for_view (v : view) (shape : list N) : res view :=
-  if negb (is_contiguous false (v_dims v)) then Err NotContiguous
+Definition reshaped_for_view (w : bool) (v : view) (shape : list N) : res view :=
+  if negb (is_contiguous w (v_dims v)) then Err NotContiguous
   else if negb (prodN shape =? prod_sizes (v_dims v)) then Err LengthMismatch
   else Ok (mkV (v_off v) (contiguous_dims shape)).
 
